@@ -85,6 +85,13 @@ def circuit_boolean_optimizer(
         ):
             continue
 
+        # The compiler may deliver a value by renaming a qubit instead of moving it;
+        # the gates of such a section alone do not implement it
+        if not preserve and any(
+            qc_sec.qubit_map.get(n) != i for n, i in qc.qubit_map.items()
+        ):
+            continue
+
         # Replace the circuit section with the new one
         qc_new.gates[section.index[0] : section.index[1]] = qc_sec.gates
 
